@@ -296,14 +296,20 @@ def e_matching_plots(a, o):
 
 
 def e_kernels(a, o):
-    A = np.asarray(a[0], dtype=float)
+    # births, deaths and persistences in the dtype of the pooled form (an integer array for the integer / list forms): the kernel and
+    # weight functions are public, and their values must not depend on that dtype either
+    A = np.asarray(a[0])
     x, y = A[:, 0].copy(), A[:, 1].copy()
+    pers = (y - x).copy()
     mu = np.array([1.0, 2.0])
     sig = np.array([[1.0, o.get("cov", 0.5)], [o.get("cov", 0.5), 2.0]])
-    snaps = [snapshot(v) for v in (x, y, mu, sig)]
-    out = [images_kernels.gaussian(x, y, mu=mu, sigma=sig), images_kernels.uniform(x, y, mu=mu, width=2.0, height=3.0),
-           images_kernels.norm_cdf(x), images_weights.persistence(x, y - x, n=2.0), images_weights.linear_ramp(x, y - x, low=0.0, high=1.0, start=0.0, end=2.0)]
-    if [snapshot(v) for v in (x, y, mu, sig)] != snaps:
+    snaps = [snapshot(v) for v in (x, y, pers, mu, sig)]
+    # (the kernel CDFs are evaluated at pixel corners, i.e. on float arrays; only the weight functions see the diagram's own dtype)
+    xf, yf = x.astype(float), y.astype(float)
+    out = [images_kernels.gaussian(xf, yf, mu=mu, sigma=sig), images_kernels.uniform(xf, yf, mu=mu, width=2.0, height=3.0),
+           images_kernels.norm_cdf(xf), images_weights.persistence(x, pers, n=2.0), images_weights.linear_ramp(x, pers, low=0.0, high=1.0, start=0.0, end=2.0),
+           images_weights.linear_ramp(x, pers, low=0.25, high=1.75, start=1.0, end=4.0)]
+    if [snapshot(v) for v in (x, y, pers, mu, sig)] != snaps:
         raise Violation("argument_modified", "a kernel / weight function modified its arguments")
     return out
 
